@@ -40,23 +40,31 @@ type gpipe struct {
 	dead     bool
 	deadErr  error
 	free     bool // free-running mode: everything is released at once
+	cap      int  // free-running mode: Send blocks while this many frames are buffered (0: unbounded)
+	onPop    func()
 }
 
-func newGPipe(free bool) *gpipe {
-	p := &gpipe{free: free}
+func newGPipe(free bool, capacity int) *gpipe {
+	p := &gpipe{free: free, cap: capacity}
 	p.cond = sync.NewCond(&p.mu)
 	return p
 }
 
-func (p *gpipe) send(v proto.Message) error {
+// send appends a frame; pre runs (under the pipe's lock) just before the frame becomes visible
+// to the receiver, so that the emission is logged ahead of anything the receiver does with it.
+func (p *gpipe) send(v proto.Message, pre func()) error {
 	p.mu.Lock()
 	defer p.mu.Unlock()
+	for p.cap > 0 && len(p.q) >= p.cap && !p.dead && !p.term {
+		p.cond.Wait()
+	}
 	if p.dead {
 		return p.deadErr
 	}
 	if p.term {
 		return io.EOF
 	}
+	pre()
 	p.q = append(p.q, v)
 	if p.free {
 		p.released = len(p.q)
@@ -116,6 +124,12 @@ func (p *gpipe) recv() (proto.Message, error) {
 			v := p.q[0]
 			p.q = p.q[1:]
 			p.released--
+			if p.free {
+				if p.onPop != nil {
+					p.onPop()
+				}
+				p.cond.Broadcast() // a bounded sender may proceed
+			}
 			return v, nil
 		}
 		if p.term && len(p.q) == 0 && (p.termRel || p.free) {
@@ -201,8 +215,11 @@ func (l *link) sendUp(m proto.Message) error {
 		l.kill(st)
 		return st
 	}
-	err = l.up.send(c)
-	l.w.tap(l, c, err)
+	logged := false
+	err = l.up.send(c, func() { logged = true; l.w.tap(l, c, nil) })
+	if !logged {
+		l.w.tap(l, c, err)
+	}
 	return err
 }
 
@@ -217,8 +234,11 @@ func (l *link) sendDown(m proto.Message) error {
 		l.kill(st)
 		return st
 	}
-	err = l.down.send(c)
-	l.w.tap(l, c, err)
+	logged := false
+	err = l.down.send(c, func() { logged = true; l.w.tap(l, c, nil) })
+	if !logged {
+		l.w.tap(l, c, err)
+	}
 	return err
 }
 
@@ -324,7 +344,7 @@ func (a simAddr) String() string  { return string(a) }
 
 func (f *Stub) newLink(ctx context.Context) *link {
 	w := f.w
-	l := &link{w: w, up: newGPipe(w.free), down: newGPipe(w.free), hdrCh: make(chan struct{}),
+	l := &link{w: w, up: newGPipe(w.free, w.pipeCap), down: newGPipe(w.free, w.pipeCap), hdrCh: make(chan struct{}),
 		stripReqNegotiate: f.stripReq, stripRespNegotiate: f.stripResp}
 	// what a client interceptor / stub wrapper would do: add a header to the call's context
 	// (only the stream's own context carries it, not the caller's)
@@ -342,6 +362,10 @@ func (f *Stub) newLink(ctx context.Context) *link {
 		sctx = metadata.NewIncomingContext(sctx, md)
 	}
 	addr := f.peerAddr
+	ts, _ := ctx.Value(tunnelStateKey{}).(*tunnelState)
+	if ts != nil && ts.peer != "" {
+		addr = ts.peer
+	}
 	if addr == "" {
 		addr = "peer-0"
 	}
@@ -349,6 +373,19 @@ func (f *Stub) newLink(ctx context.Context) *link {
 	sctx = context.WithValue(sctx, interceptorKey{}, "icpt-"+addr)
 	l.sctx, l.scancel = context.WithCancel(sctx)
 	w.addLink(l)
+	if ts != nil {
+		w.mu.Lock()
+		ts.link = l
+		w.mu.Unlock()
+	}
+	if w.free {
+		updir, downdir := "c2s", "s2c"
+		if w.cfg.Mode != "fwd" {
+			updir, downdir = "s2c", "c2s"
+		}
+		l.up.onPop = func() { w.logf("deliver dir=%s t=%d what=frame", updir, l.id) }
+		l.down.onPop = func() { w.logf("deliver dir=%s t=%d what=frame", downdir, l.id) }
+	}
 	// cancellation of the opening context kills the carrier for both ends
 	go func() {
 		<-l.cctx.Done()
